@@ -7,7 +7,7 @@ Open Scope Z_scope.
 Definition str := list N.
 
 (* s.startswith(p) *)
-Fixpoint starts_with (s p : str) : bool :=
+Fixpoint starts_with (s p : str) {struct p} : bool :=
   match p, s with
   | [], _ => true
   | c :: p', d :: s' => N.eqb c d && starts_with s' p'
@@ -37,13 +37,14 @@ Fixpoint rfind_char (c : N) (s : str) : Z :=
   end.
 
 (* s[i:] with Python's treatment of a negative start *)
+(* (indices are clamped to len(s) before the conversion to nat so that a huge index costs nothing) *)
 Definition slice_from (i : Z) (s : str) : str :=
-  if 0 <=? i then skipn (Z.to_nat i) s
+  if 0 <=? i then skipn (Z.to_nat (Z.min i (Z.of_nat (length s)))) s
   else skipn (Z.to_nat (Z.max 0 (Z.of_nat (length s) + i))) s.
 
 (* s[:i] *)
 Definition slice_to (i : Z) (s : str) : str :=
-  if 0 <=? i then firstn (Z.to_nat i) s
+  if 0 <=? i then firstn (Z.to_nat (Z.min i (Z.of_nat (length s)))) s
   else firstn (Z.to_nat (Z.max 0 (Z.of_nat (length s) + i))) s.
 
 (* a <= b for Python strings: lexicographic on code points *)
